@@ -168,9 +168,19 @@ pub fn record_api(opts: &Opts) -> i32 {
     // a fixed, seed-determined list of expressions, each visited several times with
     // unrelated compilations in between
     let mut exprs: Vec<String> = vec![];
-    for _ in 0..count {
+    for k in 0..count {
         let d = 2 + rng.below(4);
-        exprs.push(rand_expr_text(&mut rng, d, false));
+        // biased to many matchers / printers so that hash-table iteration order would show
+        if k % 3 == 0 {
+            let n = 4 + rng.below(10);
+            let parts: Vec<String> = (0..n).map(|_| match rng.below(7) {
+                0 => format!("-name n{}*", rng.below(6)), 1 => format!("-iname N{}", rng.below(6)), 2 => format!("-fprint f{}", rng.below(5)),
+                3 => format!("-fprint0 f{}", rng.below(5)), 4 => format!("-fprintf f{} '%p\\n'", rng.below(5)), 5 => "-print0".to_string(),
+                _ => format!("-mmin +{}", rng.below(100)) }).collect();
+            exprs.push(parts.join(" -o "));
+        } else {
+            exprs.push(rand_expr_text(&mut rng, d, false));
+        }
     }
     let mut order: Vec<usize> = vec![];
     for rep in 0..3 { for i in 0..exprs.len() { order.push((i * 7 + rep * 3) % exprs.len()); } }
@@ -179,11 +189,11 @@ pub fn record_api(opts: &Opts) -> i32 {
         let input = &exprs[idx];
         let obs = run_parse(input);
         seq += 1;
-        emit(&mut out, &json!({"ev":"parse","proc":proc_id,"seq":seq,"i":cps(input),"obs":parse_out_json(&obs)}));
+        emit(&mut out, &json!({"ev":"parse","proc":proc_id,"seq":seq,"eid":idx,"i":cps(input),"obs":parse_out_json(&obs)}));
         if let ParseOut::Ok(o, t) = &obs {
             let c = run_compile(t, o, &paths);
             seq += 1;
-            emit(&mut out, &json!({"ev":"compile","proc":proc_id,"seq":seq,"i":cps(input),"t":expr_to_json(t),"o":opts_to_json(o),"c":c}));
+            emit(&mut out, &json!({"ev":"compile","proc":proc_id,"seq":seq,"eid":idx,"i":cps(input),"t":expr_to_json(t),"o":opts_to_json(o),"c":c}));
         }
     }
     0
@@ -208,6 +218,90 @@ pub fn compile_text(opts: &Opts) -> i32 {
                 _ => emit(&mut out, &json!({"i": cps(&input), "obs": parse_out_json(&obs)})),
             }
         }
+    }
+    0
+}
+
+/// corpus for C03 / C17: valid inputs, every prefix, single-character mutations, deep nesting,
+/// long inputs, numeric boundaries
+pub fn total_corpus(rng: &mut Rng, count: usize) -> Vec<String> {
+    let mut v: Vec<String> = vec![];
+    let mut k = 0usize;
+    while v.len() < count {
+        k += 1;
+        match k % 8 {
+            0 => { let d = 1 + rng.below(6); let fancy = rng.chance(1, 3); v.push(rand_expr_text(rng, d, fancy)); }
+            1 => {
+                let d = 1 + rng.below(2);
+                let base = rand_expr_text(rng, d, false);
+                let chars: Vec<char> = base.chars().collect();
+                for n in 0..=chars.len().min(60) { v.push(chars[..n].iter().collect()); }
+            }
+            2 | 3 => { let d = 1 + rng.below(3); let base = rand_expr_text(rng, d, false); for _ in 0..8 { v.push(mutate(rng, &base)); } }
+            4 => {
+                let n = 1 + rng.below(64);
+                match rng.below(3) {
+                    0 => v.push(format!("{}-true{}", "( ".repeat(n), " )".repeat(n))),
+                    1 => v.push(format!("{}-true", "! ".repeat(n))),
+                    _ => v.push(format!("{}-print{}", "(".repeat(n), ")".repeat(n - rng.below(2)))),
+                }
+            }
+            5 => {
+                // long inputs up to 4 KiB
+                let mut s = String::new();
+                while s.len() < 3000 + rng.below(1000) { s.push_str(&rand_primary(rng)); s.push_str([" ", " -o ", " , ", " -a "][rng.below(4)]); }
+                s.push_str("-print");
+                s.truncate(4096);
+                v.push(s);
+            }
+            6 => v.push(rand_numeric_primary(rng)),
+            _ => { let p = rand_primary(rng); v.push(mutate(rng, &p)); }
+        }
+    }
+    v.truncate(count);
+    v
+}
+
+fn class(st: &str) -> &str { st }
+
+/// record-total: parse -> compile -> render -> io_map -> Display, every step guarded; compact
+/// outcome classes (or, with --full, the whole observation for the build comparison of C17)
+pub fn record_total(opts: &Opts) -> i32 {
+    let seed = opts.num("seed", 1);
+    let count = opts.num("count", 1000) as usize;
+    let full = opts.get("full").is_some();
+    let mut rng = Rng(seed ^ 0x5eed_0004);
+    let corpus = total_corpus(&mut rng, count);
+    let out = std::io::stdout();
+    let mut out = out.lock();
+    let paths = vec!["/".to_string()];
+    for input in corpus {
+        let obs = run_parse(&input);
+        if full {
+            match &obs {
+                ParseOut::Ok(o, t) => {
+                    let c = run_compile(t, o, &paths);
+                    emit(&mut out, &json!({"i": cps(&input), "t": expr_to_json(t), "o": opts_to_json(o), "c": c}));
+                }
+                _ => emit(&mut out, &json!({"i": cps(&input), "obs": parse_out_json(&obs)})),
+            }
+            continue;
+        }
+        let (p, c, r, m) = match &obs {
+            ParseOut::Ok(o, t) => {
+                let cj = run_compile(t, o, &paths);
+                let cst = cj["st"].as_str().unwrap_or("?").to_string();
+                let (r, m) = if cst == "ok" {
+                    (cj["renders"][0]["st"].as_str().unwrap_or("?").to_string(),
+                     if cj["iomaps"][0].get("panic").is_some() { "panic".to_string() } else { "ok".to_string() })
+                } else { ("none".into(), "none".into()) };
+                ("ok".to_string(), cst, r, m)
+            }
+            ParseOut::Err(_) => ("err".to_string(), "none".into(), "none".into(), "none".into()),
+            ParseOut::Panic(_) => ("panic".to_string(), "none".into(), "none".into(), "none".into()),
+        };
+        let _ = class;
+        emit(&mut out, &json!({"i": cps(&input), "p": p, "c": c, "r": r, "m": m}));
     }
     0
 }
